@@ -33,6 +33,9 @@ def gen(tier, seed):
         [vis_request(s2, opts={"binaryTree": True, "annotations": True, "dov": True}), vis_request(s2, opts={"propertyTree": True, "actCondTop": True})],
         [tab_request(s, opts={"igExtended": True, "annotations": True, "includeHeaders": True}), tab_request(s2, opts={"includeHeaders": False}, fmt=GS)],
         [tab_request(s2, opts={"igExtended": True, "includeHeaders": True}), vis_request(s2, opts={"annotations": True, "dov": True, "binaryTree": True})],
+        # a GET request with the execute flag converts as well
+        [tab_request(s2, opts={"igExtended": True, "annotations": True, "includeHeaders": True}, method="GET"), tab_request(s2, opts={"includeHeaders": True})],
+        [vis_request(s2, opts={"binaryTree": True, "dov": True, "propertyTree": True}, method="GET"), vis_request(s2, opts={"annotations": True}, method="GET")],
     ]
     all2 = list(interleavings([STEPS, STEPS]))          # 70
     for k, reqs in enumerate(pairs):
